@@ -153,7 +153,7 @@ func (b *backend) pathPolicyDeriveKeyWrite(ctx context.Context, req *logical.Req
 		return nil, err
 	}
 
-	if err := logical.EndTxStorage(ctx, req); err != nil {
+	if err := b.endPolicyTxStorage(ctx, req, derivedKeyName); err != nil {
 		return nil, err
 	}
 
